@@ -1,6 +1,7 @@
 /- `hist` op: setter histories (unverified IO glue). -/
 import Psa.Driver.ClaimsIO
 import Psa.Model.Setters
+import Psa.Generated.Funcs
 namespace Psa.Driver
 open Psa Psa.Model
 
@@ -46,5 +47,43 @@ def opHist (args : List String) : String :=
       "r=" ++ ",".intercalate rs ++ " final=" ++ (fmtClaims c).replace " " ";" ++ " " ++ fmtObs c
     | _, _ => "bad-op"
   | _, _ => "bad-op"
+
+/-- `cont ops=add:[…]|replace:[…]`: the component container's own mutators, from an empty container -/
+def parseContOp? (s : String) : Option ContOp :=
+  match s.splitOn ":" with
+  | [k, v] => do
+    let l ← parseList? v ';' parseComp?
+    let l' ← allSome l
+    if k == "add" then some (.add l') else if k == "replace" then some (.replace l') else none
+  | _ => none
+
+def runCont (cur : List (Option SwComp)) : List ContOp → List String → List (Option SwComp) × List String
+  | [], acc => (cur, acc.reverse)
+  | o :: rest, acc =>
+    let (c', r) := contStep cur o
+    runCont c' rest (fmtUnit r :: acc)
+
+def opCont (args : List String) : String :=
+  match lookup (fields args) "ops" with
+  | some ops =>
+    match allSome ((ops.splitOn "|").map parseContOp?) with
+    | some l =>
+      let (c, rs) := runCont [] l []
+      "r=" ++ ",".intercalate rs ++ " final=[" ++ ";".intercalate (c.map fmtCompDesc) ++ "]"
+    | none => "bad-op"
+  | none => "bad-op"
+
+/-- `hashalg x<hex of valid UTF-8>`: the regenerated `ValidateHashAlgID` itself, run on the same text as the Go function
+    (a direct check of the translator, besides `Tie.gen_validateHashAlgID_spec`) -/
+def opHashAlg (args : List String) : String :=
+  match args with
+  | [v] =>
+    match xBytes? v with
+    | some b =>
+      match String.fromUTF8? (ByteArray.mk b.toArray) with
+      | some s => fmtUnit (Generated.validateHashAlgID s)
+      | none => "bad-op"
+    | none => "bad-op"
+  | _ => "bad-op"
 
 end Psa.Driver
